@@ -423,3 +423,33 @@ Arguments VTx {TxV BlockV HdrV} t.
 Arguments VBlock {TxV BlockV HdrV} b.
 Arguments VHdr {TxV BlockV HdrV} h.
 Arguments VDict {TxV BlockV HdrV} d.
+Arguments Running {TxV BlockV HdrV} count acc s.
+Arguments Done {TxV BlockV HdrV} r.
+Arguments mk_addr {TxV BlockV HdrV} ip4_header services ip_bin port.
+Arguments mk_inv {TxV BlockV HdrV} inv_checked_types item_type data dont_check.
+Arguments as_int {TxV BlockV HdrV} v.
+Arguments truthy {TxV BlockV HdrV} v.
+Arguments pack_uint {TxV BlockV HdrV} be w v.
+Arguments stream_I {TxV BlockV HdrV} v.
+Arguments stream_S {TxV BlockV HdrV} v.
+Arguments stream_fixed {TxV BlockV HdrV} n v.
+Arguments stream_obj {TxV BlockV HdrV} stream_T stream_B stream_z v.
+Arguments stream_codec {TxV BlockV HdrV} stream_T stream_B stream_z header_of k v.
+Arguments lift {TxV BlockV HdrV A} p f.
+Arguments n2v {TxV BlockV HdrV} n.
+Arguments parse_addr {TxV BlockV HdrV} ip4_header.
+Arguments parse_inv {TxV BlockV HdrV} inv_checked_types.
+Arguments parse_codec {TxV BlockV HdrV} parse_T parse_B parse_z ip4_header inv_checked_types k.
+Arguments step {TxV BlockV HdrV} elem st.
+Arguments loopk {TxV BlockV HdrV} elem k st.
+Arguments parse_array {TxV BlockV HdrV} elem count s.
+Arguments parse_struct {TxV BlockV HdrV} parse_T parse_B parse_z ip4_header inv_checked_types fuel fmt s.
+Arguments stream_struct {TxV BlockV HdrV} stream_T stream_B stream_z header_of fmt args.
+Arguments parse_message {TxV BlockV HdrV} parse_T parse_B parse_z ip4_header inv_checked_types layout data.
+Arguments post_unpack_alert {TxV BlockV HdrV} parse_T parse_B parse_z ip4_header inv_checked_types alert_layout d.
+Arguments parse_from_data {TxV BlockV HdrV} parse_T parse_B parse_z ip4_header inv_checked_types msgs alert_layout post_merkleblock name data.
+Arguments as_seq {TxV BlockV HdrV} v.
+Arguments pack_elems {TxV BlockV HdrV} stream_T stream_B stream_z header_of subfmt elems.
+Arguments pack_field {TxV BlockV HdrV} stream_T stream_B stream_z header_of ty v.
+Arguments pack_fields {TxV BlockV HdrV} stream_T stream_B stream_z header_of layout kwargs.
+Arguments pack_from_data {TxV BlockV HdrV} stream_T stream_B stream_z header_of msgs name kwargs.
